@@ -37,7 +37,8 @@ def casei_writers_rule(ck, ix):
             continue
         for c in walk_local(f.node):
             if isinstance(c, ast.Call) and call_name(c) in ("_helper_adder", "_helper_single_adder") and dotted(c.func.value) == "self":
-                args = [norm(a) for a in c.args]
+                dfs = defs_of(f)
+                args = [norm(dfs.inline(a)) for a in c.args]  # local aliases such as `unit_dict = self._units` are resolved
                 tbl, casei = args[-2], args[-1]
                 if f.name in ("_helper_adder",):
                     ok = tbl == "target_dict" and casei == "casei_target_dict"
